@@ -3,7 +3,11 @@ flatten/canonicalize, path sets, rebinder functions.
 
 Four kinds of cases, chosen by `index % 20`:
   0..15  path    KeyPath print/parse round trip and arithmetic vs a tuple model
-  16,17  tree    pg.traverse / pg.query / sym_descendants / lookups / flatten
+  16,17  tree    pg.traverse / pg.query / sym_descendants / lookups / flatten /
+                 the path each symbolic node reports itself, on a value that is
+                 freshly built, has ALIASED members (one object at several
+                 paths), holds pg.Inferential members, or went through a HISTORY
+                 of writes (insertion batches, JSON round trips, moves, ...)
   18     set     a history of KeyPathSet operations vs Python sets of key tuples
   19     rebind  rebind(fn) on a symbolic tree vs a model of the selected nodes
 """
@@ -26,7 +30,16 @@ RULE = ('case kind by index % 20: 16 path cases (a key sequence of 0-5 keys over
         'quotes, backslashes, "$", unicode, control characters -- and ints incl. '
         'negative; two related paths: prefix / extension / sibling / equal / '
         '"0"-vs-0 twin / random), 2 tree cases (plain, symbolic or mixed nested '
-        'value, depth <= 4, <= 45 nodes, keyed with the same hostile keys), '
+        'value, depth <= 4, <= 45 nodes, keyed with the same hostile keys; 40% '
+        'freshly built, else: plain root -> 1-6 extra occurrences of a member '
+        'object (container or leaf) at other paths of the plain region; symbolic '
+        'root -> either pg.Inferential members (pg.Ref to outside objects / '
+        'containers, ValueFromParentChain, contextual attributes, held directly by '
+        'containers of ONE class per case: Dict, List or Object) or a history of '
+        '1-5 writes before the traversal (insertion-only batches, growing slices, '
+        'JSON round trips of the value or a part, moves with and without '
+        'detaching, grafts from another tree, re-rooting, clone, list edits), the '
+        'resulting value described by navigation), '
         '1 KeyPathSet history (12-30 operations on 3 sets over a small key '
         'alphabet), 1 rebind-by-function case. Non-trivial = path with >= 2 keys '
         'of which one is hostile (needs brackets, digit-only string or int) / tree '
@@ -36,7 +49,8 @@ RULE = ('case kind by index % 20: 16 path cases (a key sequence of 0-5 keys over
 REQUIRED_COUNTERS = [
     'roundtrip', 'arith', 'order_model', 'order_law', 'visit_logs', 'lookups',
     'query_checks', 'descendant_checks', 'flatten_inverse', 'rebind_fn',
-    'set_steps', 'set_state_checks']
+    'set_steps', 'set_state_checks', 'sym_path_checks', 'shared_containers',
+    'inferential_members', 'history_trees', 'absent_lookups']
 ASSUMPTIONS = [
     'keys are non-empty strings with properly nested brackets, or ints (no bool, '
     'no empty string, no StrKey objects)',
@@ -48,7 +62,17 @@ ASSUMPTIONS = [
     'trip was verified in the same case',
     'KeyPathSet.add(include_intermediate=True) and writes through a subtree() '
     'view are not generated (not covered by the property text)',
-    'item access v[k] / sym_getattr is the trusted way to reach a node',
+    'sym_getattr(k) of a symbolic container / v[k] of a plain one is the trusted '
+    'way to reach a node; after a history of writes sym_keys() / len() are the '
+    'trusted member lists. A pg.Ref is a leaf (documented), any other '
+    'inferential object is a node with its own fields',
+    'the operations of a history are not judged (other properties do): one that '
+    'raises ends the case, a JSON round trip is used only when it reproduces '
+    'the value',
+    'the fields of ContextualAttribute / ValueFromParentChain objects are not '
+    'selected by rebinder functions (they are typed)',
+    'absent list indices: >= len, or < -len; negative indices within range are '
+    'not generated (left open)',
 ]
 
 # ---------------------------------------------------------------------------
@@ -728,7 +752,7 @@ def check_log(ctx, report, variant, root, log, expected, offset=(), shared=(), r
       par = ('/' + (cls_name(holder) if keys else 'root')
              if entry == 'pg.traverse' else '')
       if keys and id(holder) in shared:
-        par += '/shared'
+        par = '/shared'     # whatever its class: the holder is at several paths
       bad('visit-missing', entry + par, f'position {show(keys)} ({node!r:.60}) not visited', keys)
 
 
@@ -1185,10 +1209,13 @@ def check_tree(ctx, i, d, root, flavour, opts):
         bad('lookup', family(mech), f'{mech} for position {show(keys)}: {o[1]!r:.100}, '
             f'item access gives {node!r:.80}')
         break
-  # Absent positions below containers.
+  # Absent positions below containers (a list index past either end).
   for keys, dn in [p_ for p_ in pos if p_[1]['t'] != 'v'][:8]:
+    mech = 'absent-path'
     if dn['t'] == 'L':
       k = len(dn['items']) + rng.randint(0, 2)
+      if rng.random() < 0.4:
+        k, mech = -k - 1, 'absent-negative-index'
     elif dn['t'] == 'O':
       k = 'nofield'
     else:
@@ -1197,11 +1224,14 @@ def check_tree(ctx, i, d, root, flavour, opts):
         continue
     kp = KeyPath(list(keys) + [k])
     c['lookups'] += 1
+    c['absent_lookups'] += 1
     o = (outcome(lambda: kp.query(root)), outcome(lambda: kp.exists(root)),
          outcome(lambda: kp.get(root, Ellipsis)))
     if not (o[0][0] == 'raise' and isinstance(o[0][1], KeyError)
             and o[1] == ('ok', False) and o[2] == ('ok', Ellipsis)):
-      bad('lookup', 'absent-path', f'absent path {show(kp.keys)}: query/exists/get -> {o!r:.300}')
+      if mech == 'absent-negative-index':
+        mech += '/' + cls_name(nav(root, keys))
+      bad('lookup', mech, f'absent path {show(kp.keys)}: query/exists/get -> {o!r:.300}')
 
   # -- pg.query ---------------------------------------------------------------
   def check_query(entry, res, exp_keys):
@@ -1289,7 +1319,7 @@ def check_tree(ctx, i, d, root, flavour, opts):
       return True
     return any(int_dict_key(ch) for _, ch in children(dn))
 
-  if d['t'] in 'DL' and not int_dict_key(d) and strings_ok and not inf_pos:
+  if d['t'] in 'DL' and d['items'] and not int_dict_key(d) and strings_ok and not inf_pos:
     def leaves(dn, prefix=()):
       if dn['t'] in 'DL' and dn['items']:
         out = []
@@ -1418,7 +1448,10 @@ def rebind_case_(ctx, i):
     c['skipped_printed_path_checks'] += 1
     return
   before = {tk(keys): (keys, nav(root, keys)) for keys, _ in pos}
-  cands = [keys for keys, _ in pos if keys]
+  # (the fields of an inferential object -- ContextualAttribute.type -- are typed:
+  # what may be written there is not this property's concern)
+  cands = [keys for keys, _ in pos if keys and not isinstance(
+      before[tk(keys[:-1])][1], pg.symbolic.Inferential)]
   n_sel = 0 if rng.random() < 0.1 else rng.randint(1, 4)
   picked = rng.sample(cands, min(n_sel, len(cands)))
   by_identity = rng.random() < 0.3
